@@ -60,17 +60,23 @@ def run(ctx, res):
                                  f"{buffered_real(TemplateStream, n2, ps2)!r}; documented chunks {model_chunks(n2, ps2)!r}",
                             {"size": n2, "pieces": ps2})
 
+    mk = run_unit_markup(ctx, res, TemplateStream)
     e2e = run_e2e(ctx, res, jinja2)
+    ae = run_e2e_autoescape(ctx, res, jinja2)
     res.coverage.update({
-        "evaluations": len(cases) + e2e["evaluations"],
-        "distinct_nontrivial": len({(n, tuple(p)) for n, p in cases if p}) + e2e["distinct"],
+        "evaluations": len(cases) + mk["evaluations"] + e2e["evaluations"] + ae["evaluations"],
+        "distinct_nontrivial": len({(n, tuple(p)) for n, p in cases if p}) + mk["distinct"] + e2e["distinct"] + ae["distinct"],
         "rule": (f"L-unit: every piece list of length <= {ctx.pick(6, 8)} over {{'', 'a', 'bc'}} x buffer sizes 2-8 "
-                 "(exhaustive) plus random long piece lists, real TemplateStream vs Lean model; L-e2e: " + e2e["rule"]
+                 "(exhaustive) plus random long piece lists, real TemplateStream vs Lean model; L-unit-markup: " + mk["rule"]
+                 + "; L-e2e: " + e2e["rule"] + "; L-e2e-autoescape: " + ae["rule"]
                  + "; non-trivial = non-empty piece list / template producing output"),
-        "samples": [{"size": cases[100][0], "pieces": cases[100][1]}, {"size": cases[-1][0], "pieces": cases[-1][1]}] + e2e["samples"],
+        "samples": ([{"size": cases[100][0], "pieces": cases[100][1]}, {"size": cases[-1][0], "pieces": cases[-1][1]}]
+                    + mk["samples"] + e2e["samples"] + ae["samples"]),
         "exhaustive": True,
         "unit_mismatches": mism,
+        "unit_markup": {k: v for k, v in mk.items() if k not in ("samples", "rule")},
         "e2e": {k: v for k, v in e2e.items() if k not in ("samples", "rule")},
+        "e2e_autoescape": {k: v for k, v in ae.items() if k not in ("samples", "rule")},
     })
 
 
@@ -108,8 +114,9 @@ class NoWritelines:
         self.parts.append(x)
 
 
-def entry_points(jinja2, env, aenv, name, data, tmpdir):
-    """all the ways to obtain the text; returns dict label -> text (or 'raised:…')"""
+def entry_points(jinja2, env, aenv, name, data, tmpdir, extra_sizes=()):
+    """all the ways to obtain the text; returns dict label -> text (or 'raised:…');
+    extra_sizes: buffer sizes for which every dump target is additionally fed from a buffered stream"""
     out = {}
     t = env.get_template(name)
 
@@ -129,9 +136,12 @@ def entry_points(jinja2, env, aenv, name, data, tmpdir):
     guard("generate", gen)
     guard("stream", lambda: "".join(t.stream(data)))
 
-    def dump_text():
+    def dump_text(buffered=None):
         fp = io.StringIO()
-        t.stream(data).dump(fp)
+        s = t.stream(data)
+        if buffered:
+            s.enable_buffering(buffered)
+        s.dump(fp)
         return fp.getvalue()
 
     def dump_bytes(buffered=None):
@@ -142,24 +152,38 @@ def entry_points(jinja2, env, aenv, name, data, tmpdir):
         s.dump(fp, encoding="utf-8")
         return fp.getvalue().decode("utf-8")
 
-    def dump_path():
+    def dump_path(buffered=None):
         p = os.path.join(tmpdir, "out.html")
-        t.stream(data).dump(p)
+        s = t.stream(data)
+        if buffered:
+            s.enable_buffering(buffered)
+        s.dump(p)
         with open(p, "rb") as f:
             return f.read().decode("utf-8")
 
-    def dump_nowl():
+    def dump_nowl(buffered=3):
         fp = NoWritelines()
         s = t.stream(data)
-        s.enable_buffering(3)
+        s.enable_buffering(buffered)
         s.dump(fp)
         return "".join(fp.parts)
+
+    def stream_buffered(n):
+        s = t.stream(data)
+        s.enable_buffering(n)
+        return "".join(s)
 
     guard("dump-text", dump_text)
     guard("dump-utf8", dump_bytes)
     guard("dump-utf8-buffered4", lambda: dump_bytes(4))
     guard("dump-path", dump_path)
     guard("dump-no-writelines", dump_nowl)
+    for n in extra_sizes:
+        guard(f"stream-buffered{n}", lambda: stream_buffered(n))
+        guard(f"dump-text-buffered{n}", lambda: dump_text(n))
+        guard(f"dump-utf8-buffered{n}", lambda: dump_bytes(n))
+        guard(f"dump-path-buffered{n}", lambda: dump_path(n))
+        guard(f"dump-no-writelines-buffered{n}", lambda: dump_nowl(n))
     guard("module-str", lambda: str(t.make_module(data)))
     at = aenv.get_template(name)
     guard("render_async", lambda: asyncio.run(at.render_async(data)))
@@ -235,9 +259,231 @@ def run_e2e(ctx, res, jinja2):
                      "dump to text/utf-8/path/write-only targets, module str, render_async, generate_async")}
 
 
+# ---------------------------------------------------------------------------------------------------------------------
+# Family "markup pieces": under autoescape the pieces of one chunk are a mix of markupsafe.Markup (expression output)
+# and plain str (template data, possibly containing < > & ' ").  Combining pieces must be plain text concatenation
+# ("".join), never Markup's escaping `+` / `%` / `.join` / `.format`.
+
+SPECIALS = ["<", ">", "&", "'", '"']
+
+
+def run_unit_markup(ctx, res, TemplateStream):
+    from markupsafe import Markup
+
+    # symbol = (is_markup, text)
+    alpha = [(False, ""), (False, "<p>"), (False, "a&'\""), (True, "x"), (True, "&lt;b&gt;")]
+    maxlen = ctx.pick(4, 5)
+    sizes = list(range(2, 9))
+    cases = []
+    for ln in range(maxlen + 1):
+        for ps in itertools.product(alpha, repeat=ln):
+            for n in sizes:
+                cases.append((n, list(ps)))
+    rng = ctx.rng("unit-markup")
+    texts = ["", "x", "<li class=\"i\">", "</li>", " & ", "it's", "é<", ">", "\n", "&amp;", "{}", "%s"]
+    for _ in range(ctx.pick(400, 4000)):
+        ps = [(rng.random() < 0.4, rng.choice(texts)) for _ in range(rng.randrange(0, 30))]
+        cases.append((rng.choice(sizes + [11, 50]), ps))
+    replies = core.driver_batch([[Atom("stream"), n, [t for _, t in ps]] for n, ps in cases])
+
+    def real(n, ps):
+        try:
+            st = TemplateStream(iter([Markup(t) if m else t for m, t in ps]))
+            st.enable_buffering(n)
+            return [str(c) for c in st]
+        except Exception as e:  # noqa
+            return f"raised:{type(e).__name__}"
+
+    mism = mixed = 0
+    for (n, ps), rep in zip(cases, replies):
+        chunks, nes, cat = rep[1]
+        if any(m for m, _ in ps) and any((not m) and any(ch in t for ch in SPECIALS) for m, t in ps):
+            mixed += 1
+        got = real(n, ps)
+        if got != chunks:
+            mism += 1
+            ok_text = isinstance(got, list) and "".join(got) == cat
+            key = "C10:unit-markup:text" if not ok_text else "C10:unit-markup:chunking"
+            if not any(v.key == key for v in res.violations):
+                cur, changed = list(ps), True
+                while changed:  # drop pieces while the real stream still differs from the documented chunks
+                    changed = False
+                    for i in range(len(cur)):
+                        cand = cur[:i] + cur[i + 1:]
+                        if real(n, cand) != model_chunks(n, [t for _, t in cand]):
+                            cur, changed = cand, True
+                            break
+                shown = [("Markup(%r)" % t) if m else repr(t) for m, t in cur]
+                res.violate(key, f"TemplateStream with buffer size {n} over pieces [{', '.join(shown)}] (Markup = escaped expression "
+                                 f"output, str = template data) yields text {real(n, cur)!r}; documented chunks "
+                                 f"{model_chunks(n, [t for _, t in cur])!r}",
+                            {"size": n, "markup_pieces": [[bool(m), t] for m, t in cur]})
+    return {"evaluations": len(cases), "distinct": len({(n, tuple(p)) for n, p in cases if p}), "mismatches": mism,
+            "chunk_mixes_markup_and_special_data": mixed,
+            "samples": [{"size": cases[700][0], "markup_pieces": [[m, t] for m, t in cases[700][1]]}],
+            "rule": (f"every list of length <= {maxlen} over {{'' , '<p>', 'a&\'\"' as str; 'x', '&lt;b&gt;' as Markup}} x buffer "
+                     "sizes 2-8 (exhaustive) plus random long mixed Markup/str lists with markup characters, text of the real "
+                     "chunks vs Lean model")}
+
+
+AUTOESCAPE_MODES = ["env", "select", "callable", "section"]
+
+
+def make_tgm(rng, features=None):
+    """TG whose template data and values are rich in the characters Markup escapes"""
+
+    class TGM(TG):
+        def text(self):
+            return self.r.choice(["x", "Hello ", "\n", "<p>", " & ", "äö", "</p>", "<li class=\"i\">", "it's", " > ", "<br/>",
+                                  "&amp;", "\"q\" "])
+
+        def data(self):
+            r = self.r
+            d = TG.data(self)
+            d["a"] = r.choice([0, 1, 7, "", "s", "<a href='x'>"])
+            d["c"] = r.choice(["see", 0, None, "c & d"])
+            d["items"] = r.choice([[], [1], [1, 2, 3], ["x", "", "y"], ["a", "b & c", "<d>"]])
+            d["name"] = r.choice(["world", "", "<i>", "T<1>", "O'Neil \"x\""])
+            return d
+
+    return TGM(rng, features)
+
+
+def autoescape_envs(jinja2, mode, templates):
+    if mode == "env":
+        kw = dict(autoescape=True)
+    elif mode == "select":
+        kw = dict(autoescape=jinja2.select_autoescape(enabled_extensions=(), default=True, default_for_string=True))
+    elif mode == "callable":
+        kw = dict(autoescape=lambda name: True)
+    else:  # "section": autoescape off in the environment, switched on by {% autoescape true %} in the templates
+        kw = dict(autoescape=False)
+    return (jinja2.Environment(loader=jinja2.DictLoader(templates), **kw),
+            jinja2.Environment(loader=jinja2.DictLoader(templates), enable_async=True, **kw))
+
+
+def strip_size(label):
+    return label.rstrip("0123456789")
+
+
+def run_e2e_autoescape(ctx, res, jinja2):
+    """generated template sets rendered with autoescape on (expression output is Markup, template data is plain str with
+    markup characters) through every entry point, every dump target additionally fed from buffered streams"""
+    from markupsafe import Markup
+
+    rng = ctx.rng("e2e-autoescape")
+    n_sets = ctx.pick(40, 400)
+    evaluations, distinct, samples = 0, set(), []
+    modes = {m: 0 for m in AUTOESCAPE_MODES}
+    mixed_chunks = markup_pieces = total_pieces = 0
+    reqs, meta = [], []
+    tmpdir = tempfile.mkdtemp(prefix="jv-c10-ae-")
+    try:
+        for i in range(n_sets):
+            mode = AUTOESCAPE_MODES[i % len(AUTOESCAPE_MODES)] if i < 8 else rng.choice(AUTOESCAPE_MODES)
+            modes[mode] += 1
+            if mode == "section":
+                tg = make_tgm(rng, {"if", "for", "set", "macro", "include", "import", "filter", "empty", "call", "with"})
+                templates, main = tg.make_set()
+                for k in ("main", "inc"):
+                    templates[k] = "{% autoescape true %}" + templates[k] + "{% endautoescape %}" + tg.text()
+            else:
+                tg = make_tgm(rng)
+                templates, main = tg.make_set()
+            env, aenv = autoescape_envs(jinja2, mode, templates)
+            for _ in range(2):
+                data = tg.data()
+                extra = sorted(rng.sample(range(2, 9), 2)) + ([rng.choice([11, 50])] if rng.random() < 0.2 else [])
+                outs, pieces, chunks = entry_points(jinja2, env, aenv, main, data, tmpdir, extra_sizes=extra)
+                evaluations += len(outs) + len(chunks)
+                distinct.add((mode, templates[main], repr(sorted(data.items(), key=str))))
+                case = {"autoescape": mode, "templates": templates, "data": data}
+                ref = outs["render"]
+                if ref.startswith("raised:"):
+                    cls = ref.split(":")[1]
+                    for k, v in outs.items():
+                        if not v.startswith("raised:" + cls):
+                            res.violate(f"C10:e2e-autoescape:{strip_size(k)}:error-mismatch",
+                                        f"render raises {cls} but {k} gives {v[:80]!r} for {templates[main]!r} (autoescape: {mode})",
+                                        dict(case, entry=k))
+                    continue
+                for k, v in outs.items():
+                    if v != ref:
+                        res.violate(f"C10:e2e-autoescape:{strip_size(k)}",
+                                    f"autoescape ({mode}): {k} gives {v!r} but render gives {ref!r} for template {templates[main]!r}",
+                                    dict(case, entry=k, got=str(v), render=ref))
+                total_pieces += len(pieces)
+                markup_pieces += sum(isinstance(p, Markup) for p in pieces)
+                plain = [str(p) for p in pieces]
+                for n, ch in chunks.items():
+                    reqs.append([Atom("stream"), n, plain])
+                    meta.append((case, n, ch if isinstance(ch, str) else [str(c) for c in ch], ref))
+                ne = [p for p in pieces if p]
+                for j in range(0, len(ne), 2):  # chunks of size 2 that really mix Markup with special template data
+                    grp = ne[j:j + 2]
+                    if any(isinstance(p, Markup) for p in grp) and any(
+                            not isinstance(p, Markup) and any(c in p for c in SPECIALS) for p in grp):
+                        mixed_chunks += 1
+                if len(samples) < 2:
+                    samples.append({"autoescape": mode, "templates": templates, "data": {k: repr(v) for k, v in data.items()},
+                                    "pieces": [("Markup:" if isinstance(p, Markup) else "str:") + str(p) for p in pieces]})
+    finally:
+        import shutil
+
+        shutil.rmtree(tmpdir, ignore_errors=True)
+    replies = core.driver_batch(reqs)
+    for (case, n, ch, ref), rep in zip(meta, replies):
+        mchunks, nes, cat = rep[1]
+        if cat != ref:
+            res.violate("C10:e2e-autoescape:generate-pieces", f"concatenation of generate() pieces {cat!r} != render {ref!r}", case)
+        if ch != mchunks:
+            key = ("C10:e2e-autoescape:buffered-text" if not (isinstance(ch, list) and "".join(ch) == ref)
+                   else "C10:e2e-autoescape:buffered-chunking")
+            res.violate(key, f"autoescape ({case['autoescape']}): stream with buffer size {n} over {case['templates']['main']!r} "
+                             f"yields {ch!r}; documented {mchunks!r}",
+                        dict(case, size=n, got=ch, expected=mchunks))
+    return {"evaluations": evaluations, "distinct": len(distinct), "template_sets": n_sets, "modes": modes,
+            "pieces": total_pieces, "markup_pieces": markup_pieces, "size2_chunks_mixing_markup_and_special_data": mixed_chunks,
+            "samples": samples,
+            "rule": (f"{n_sets} generated template sets with markup-rich template data and values, autoescape on via "
+                     "Environment(autoescape=True) / select_autoescape / callable / {% autoescape true %} section, x 2 data "
+                     "assignments through all entry points above plus buffered stream join and dump to text/utf-8/path/"
+                     "write-only targets from buffered streams (2 random sizes of 2-8, sometimes 11/50), buffered chunk "
+                     "lists sizes 2-8 vs Lean model on the real (Markup/str) piece lists")}
+
+
 def replay(ctx, case):
     c = case["case"]
     if "pieces" in c:
         from jinja2.environment import TemplateStream
         return {"impl": buffered_real(TemplateStream, c["size"], c["pieces"]), "model": model_chunks(c["size"], c["pieces"])}
+    if "markup_pieces" in c:
+        from jinja2.environment import TemplateStream
+        from markupsafe import Markup
+        try:
+            st = TemplateStream(iter([Markup(t) if m else t for m, t in c["markup_pieces"]]))
+            st.enable_buffering(c["size"])
+            impl = [str(x) for x in st]
+        except Exception as e:  # noqa
+            impl = f"raised:{type(e).__name__}"
+        return {"impl": impl, "model": model_chunks(c["size"], [t for _, t in c["markup_pieces"]])}
+    if "autoescape" in c:
+        jinja2 = core.import_jinja()
+        env, aenv = autoescape_envs(jinja2, c["autoescape"], c["templates"])
+        tmpdir = tempfile.mkdtemp(prefix="jv-c10-rp-")
+        try:
+            sizes = [c["size"]] if "size" in c else [int(c["entry"][len(strip_size(c["entry"])):] or 0)] if "entry" in c else []
+            outs, pieces, chunks = entry_points(jinja2, env, aenv, "main", c["data"], tmpdir, extra_sizes=[n for n in sizes if n >= 2])
+        finally:
+            import shutil
+
+            shutil.rmtree(tmpdir, ignore_errors=True)
+        r = {"render": outs["render"]}
+        if "entry" in c:
+            r[c["entry"]] = outs.get(c["entry"])
+        if "size" in c:
+            ch = chunks[c["size"]]
+            r["chunks"] = ch if isinstance(ch, str) else [str(x) for x in ch]
+            r["model"] = model_chunks(c["size"], [str(p) for p in pieces])
+        return r
     return c
